@@ -265,6 +265,15 @@ func insertRound(w *W, idx int) {
 							if prev, loaded := owners.LoadOrStore(off, stamp); loaded {
 								bad(&collisions, fmt.Sprintf("insert by worker %d received offset %d which is held by stamp %d (live row or in-flight insert)", wi, off, prev))
 							}
+							// the new row is empty already inside the callback (the callback runs under the block's read
+							// latch: a delete that freed the offset has finished cleaning the columns)
+							if a, okA := r.Int64("a"); okA {
+								bad(&stale, fmt.Sprintf("inside its insert callback the new row %d (worker %d) reads a=%d: the value of a previous occupant", off, wi, a))
+							} else if s, okS := r.String("s"); okS {
+								bad(&stale, fmt.Sprintf("inside its insert callback the new row %d (worker %d) reads s=%q: the value of a previous occupant", off, wi, s))
+							} else if _, okM := r.Int64("m"); okM || r.Bool("b") {
+								bad(&stale, fmt.Sprintf("inside its insert callback the new row %d (worker %d) exposes m or b of a previous occupant", off, wi))
+							}
 							r.SetInt64("a", stamp)
 							r.SetUint32("u", uint32(stamp))
 							if full {
@@ -443,6 +452,7 @@ func indexBuildRound(w *W, idx int) {
 			atomic.StoreInt32(&building, 1)
 			c.CreateIndex(fmt.Sprintf("neg%d", i), "a", func(r column.Reader) bool { return r.Int() < 0 })
 			c.CreateIndex(fmt.Sprintf("long%d", i), "s", func(r column.Reader) bool { return len(r.String()) > 1 })
+			c.CreateSortIndex(fmt.Sprintf("by_s%d", i), "s")
 			atomic.StoreInt32(&building, 0)
 			built++
 		}
@@ -470,6 +480,39 @@ func indexBuildRound(w *W, idx int) {
 		}
 		return nil
 	})
+	// ... and every sorted index visits exactly the rows holding a value, in non-decreasing order of the values
+	ascended := 0
+	for i := 0; i < built && bad == ""; i++ {
+		name := fmt.Sprintf("by_s%d", i)
+		c.Query(func(txn *column.Txn) error {
+			s := txn.String("s")
+			holding := 0
+			txn.With("s").Range(func(uint32) { holding++ })
+			seen := map[uint32]bool{}
+			last, first := "", true
+			txn.Ascend(name, func(off uint32) {
+				ascended++
+				v, ok := s.Get()
+				switch {
+				case bad != "":
+				case seen[off]:
+					bad = fmt.Sprintf("sorted index %s created while writers were committing: row %d visited twice", name, off)
+				case !ok:
+					bad = fmt.Sprintf("sorted index %s created while writers were committing: visits row %d which holds no value", name, off)
+				case !first && v < last:
+					bad = fmt.Sprintf("sorted index %s created while writers were committing: row %d holding %q visited after a row holding %q", name, off, v, last)
+				}
+				seen[off] = true
+				last, first = v, false
+			})
+			if bad == "" && len(seen) != holding {
+				bad = fmt.Sprintf("sorted index %s created while writers were committing: visits %d rows, %d rows hold a value", name, len(seen), holding)
+			}
+			return nil
+		})
+	}
+	w.Stat("stress_sorted_index_rows_visited", int64(ascended))
+	w.Stat("ascend_rows", int64(ascended))
 	w.Stat("stress_indexes_built_beside_writers", int64(2*built))
 	w.Stat("stress_commits_while_an_index_was_being_built", commitsDuringBuild)
 	w.Stat("stress_index_bits_checked", int64(checked))
